@@ -108,7 +108,9 @@ def _for_loop(self, it, spec, lname, env, qual, s):
 
     def pre_body():
         i = env.vars[idx_name]
-        it.assign(s.target, self.elem(it, z3.simplify(as_int(i))), env)
+        e = self.elem(it, z3.simplify(as_int(i)))
+        it.ctx.event("seq.next", self, e)
+        it.assign(s.target, e, env)
         env.vars[idx_name] = SV("int", z3.simplify(as_int(i) + 1))
 
     spec.extra_targets = {idx_name}
